@@ -28,7 +28,7 @@ ASSUMPTIONS = [
     "the harness's VHD writer/reference reader are a faithful reading of the VHD specification",
     "held means: held on the executions listed, not verified for all inputs",
 ]
-MINIMA = {"quick": {"reads_compared": 3000, "legacy_footer_cases": 5, "small_block_cases": 10, "fixed_with_nested_vhd_content": 5}, "thorough": {"reads_compared": 30000}}
+MINIMA = {"quick": {"reads_compared": 3000, "legacy_footer_cases": 5, "small_block_cases": 10, "fixed_with_nested_vhd_content": 5}, "thorough": {"reads_compared": 300000}}
 MECH = "vhd.read"
 DATA = os.path.join(os.environ.get("VF_REPO", "/repo"), "tests", "data")
 
@@ -39,12 +39,12 @@ def plan(tier: str, seed: int) -> list[dict]:
     sizes = [512, 1024, 2048, 4096, 8192, 65536, 1 << 19, 1 << 20, 2 << 20]
     if tier == "thorough":
         sizes += [1536, 3584, 4 << 20, 16 << 20, 64 << 20]
-    for i in range(150 if tier == "quick" else 4000):
+    for i in range(150 if tier == "quick" else 16000):
         bs = rng.choice(sizes)
         n = rng.randrange(1, 40 if bs <= 65536 else (8 if bs <= (2 << 20) else 3))
         cases.append({"k": "dyn", "i": i, "bs": bs, "n": n, "placement": rng.choice(["seq", "rev", "shuffle", "shuffle", "runs"]),
                       "bitmaps": rng.choice(["ones", "ones", "random", "zeros"]), "weight": 1 + (bs * n >> 20)})
-    for i in range(24 if tier == "quick" else 400):
+    for i in range(24 if tier == "quick" else 2000):
         cases.append({"k": "fixed", "i": i, "legacy": i % 2 == 1})
     for f in ("dynamic.vhd.gz", "fixed.vhd.gz"):
         cases.append({"k": "fixture", "name": f, "weight": 20})
